@@ -304,6 +304,8 @@ def execute(job, logpath, seconds=120):
 # ------------------------------------------------------------------ child driver -----------------------------------
 def child_entry(entry):
     import cloudpickle as cp
+    import time
+    t0 = time.time()
     rep = {"id": entry["id"], "hashseed": os.environ.get("PYTHONHASHSEED")}
     if entry.get("job_pkl") is not None:
         try:
@@ -339,14 +341,15 @@ def child_entry(entry):
             rep["result_errors"] = errors_view(res)
         except Exception as e:  # noqa
             rep["result_err"] = f"{type(e).__name__}: {str(e)[:300]}"
+    rep["seconds"] = round(time.time() - t0, 3)
     return rep
 
 
 def child_main(batch, start=0):
-    import pydra
+    import pydra.engine.job as pj
     with open(batch, "rb") as f:
         entries = pickle.load(f)
-    origin = os.path.dirname(os.path.abspath(pydra.engine.__file__))
+    origin = os.path.dirname(os.path.abspath(pj.__file__))
     with open(str(batch) + ".out", "a") as out:
         for i, entry in enumerate(entries):
             if i < start:
